@@ -209,10 +209,10 @@ def fecCount (batch : List (Nat × Bool)) (nf : Nat) : Nat :=
 /-- `PacketFactoryCopy.NewPacket` fails? (`some e`), as called by the NACK responder. -/
 def responderRejects (cfg : StreamCfg) (p : Pkt) : Option WErr :=
   if p.payload.length > 1460 then some .shortbuf
-  else if cfg.rtx ∧ p.hdr.padding ∧ p.hdr.paddingSize = 0 then
-    -- RTX form: 2-byte OSN prefix + payload copied into a 1460-byte pool buffer
-    let rp := be16 p.hdr.seq ++ p.payload.take 1458
-    if rp.getLast?.getD 0 > rp.length then some .padoverflow else none
+  else if cfg.rtx ∧ p.hdr.padding ∧ p.hdr.paddingSize = 0 ∧ p.payload ≠ [] then
+    -- RTX form (after the fixes F-05 and 818a065): the whole payload is kept behind the 2-byte OSN prefix; the
+    -- padding count is the last byte of the ORIGINAL payload and may cover at most that payload
+    if p.payload.getLast?.getD 0 > p.payload.length then some .padoverflow else none
   else none
 
 /-- has the header a well-formed transport-cc element under `id`? -/
